@@ -662,7 +662,7 @@ func checkC10(c *ev.Ctx) {
 	// second opinion on the stepper itself: strace (-f -y) must see the same sequence of counted
 	// syscalls on the scenario directory, and no file or descriptor syscall the stepper does not know
 	for i, s := range scens {
-		if s.Stdout || s.Existing || s.Input != "small" || s.Keep || s.Force || s.Rel || s.Extra || c.ReplayOf != "" {
+		if s.Stdout || s.Existing || s.Input != "small" || s.Keep || s.Force || s.Rel || s.Extra || s.Alias != "" || c.ReplayOf != "" {
 			continue
 		}
 		if c.Counter("strace_crosschecks") >= 4 {
